@@ -10,7 +10,7 @@ from sx import api as sx
 from sx.runner import Harness
 
 PROPERTY = "C15"
-MODULES = ["aiortc.rate", "aiortc.rtp"]
+MODULES = ["aiortc.rate", "aiortc.rtp", "aiortc.rtcrtpreceiver", "aiortc.jitterbuffer"]
 DEADLINE = {"quick": 400, "thorough": 2000}
 U32 = 0xFFFFFFFF
 
@@ -295,6 +295,72 @@ def h_orchestration(ctx, npk, W):
     ctx.observe("n", len(seen))
 
 
+def h_two_estimators(ctx):
+    """Two estimators in one process (two video receivers): each REMB lists the SSRCs that this
+    estimator has seen, not those of the other one."""
+    es = []
+    det, rc = _StubDetector(ctx), _StubRateControl(ctx)  # (stand-ins without state of their own: shared)
+    for k in range(2):
+        e = RemoteBitrateEstimator()
+        e.inter_arrival = _StubInterArrival()
+        e.detector, e.rate_control = det, rc
+        es.append(e)
+    a, b = ctx.int("ssrc_a", 0, U32), ctx.int("ssrc_b", 0, U32)
+    now = ctx.int("t0", 0, 1 << 30)
+    det.step()
+    r1 = es[0].add(arrival_time_ms=now, abs_send_time=ctx.int("ast_a", 0, 0xFFFFFF), payload_size=100, ssrc=a)
+    r2 = es[1].add(arrival_time_ms=now, abs_send_time=ctx.int("ast_b", 0, 0xFFFFFF), payload_size=100, ssrc=b)
+    ctx.reach("both-added")
+    if r1 is not None:
+        ctx.check(sx.deep_eq(list(r1[1]), [a]), "estimator-lists-only-its-own-ssrcs")
+    if r2 is not None:
+        ctx.reach("second-estimate")
+        ctx.check(sx.deep_eq(list(r2[1]), [b]), "estimator-lists-only-its-own-ssrcs")
+    ctx.observe("ok", True)
+
+
+def h_receiver_feed(ctx, has_ast):
+    """RTCRtpReceiver._handle_rtp_packet hands EVERY media packet that carries an abs-send-time
+    (any 24-bit value, 0 included) to the estimator, with payload + padding as its size and the
+    packet's SSRC, and sends the REMB that the estimator returns."""
+    from .c11_nackrtx import SSRC, _mk_receiver
+    from aiortc.codecs.vpx import Vp8Encoder
+    from aiortc.rtp import RtpPacket
+
+    r = _mk_receiver(False)
+    fed, sent = [], []
+    want_remb = ctx.choice("estimator_returns_an_estimate", [False, True])
+
+    class Est:
+        def add(self, **kw):
+            fed.append(kw)
+            return (123456, [kw["ssrc"]]) if want_remb else None
+
+    async def send_rtcp(packet):
+        sent.append(packet)
+
+    r._RTCRtpReceiver__remote_bitrate_estimator = Est()
+    r._send_rtcp = send_rtcp
+    p = RtpPacket(payload_type=96, sequence_number=ctx.int("seq", 0, 0xFFFF), timestamp=1000, ssrc=SSRC, marker=1)
+    p.payload = Vp8Encoder._packetize(b"\xc0\xc1\xc2", 100)[0]
+    p.padding_size = ctx.int("padding", 0, 255)
+    ast = ctx.int("abs_send_time", 0, 0xFFFFFF) if has_ast else None
+    p.extensions.abs_send_time = ast
+    arrival = ctx.int("arrival_ms", 0, 1 << 40)
+    sx.run(r._handle_rtp_packet(p, arrival_time_ms=arrival))
+    ctx.reach("receiver-fed")
+    if has_ast:
+        ctx.check(len(fed) == 1, "packet-with-abs-send-time-reaches-the-estimator")
+        if fed:
+            kw = fed[0]
+            ctx.check(sx.And(sx.eq(kw["abs_send_time"], ast), sx.eq(kw["arrival_time_ms"], arrival), sx.eq(kw["payload_size"], len(p.payload) + p.padding_size), sx.eq(kw["ssrc"], SSRC)), "estimator-gets-send-time-arrival-size-and-ssrc")
+            rembs = [x for x in sent if type(x).__name__ == "RtcpPsfbPacket" and x.fmt == 15]
+            ctx.check(len(rembs) == (1 if want_remb else 0), "remb-sent-iff-the-estimator-returned-one")
+    else:
+        ctx.check(fed == [], "packet-without-abs-send-time-is-not-fed")
+    ctx.observe("fed", len(fed))
+
+
 def h_many_ssrcs(ctx, n):
     """Targeted, concrete count: n distinct SSRCs must still yield an encodable REMB."""
     e = RemoteBitrateEstimator()
@@ -354,5 +420,7 @@ HARNESSES = {
     "aimd-clamp": Harness("aimd-clamp", h_clamp, lambda tier: [{}], style="STEP", bounds="current 0..2^32-1, new 0..2^40, throughput 0..2^32-1", encoded=ENC, stubs=STUBS, twin="clamped"),
     "aimd-update": Harness("aimd-update", h_aimd_update, lambda tier: [{"steps": s, "avg": v} for s in ((1, 2) if tier == "quick" else (1, 2, 3)) for v in (None, 1000.0)], style="BMC from an arbitrary controller state", bounds="1..2 (quick) / 1..3 consecutive update() calls from an arbitrary controller state: current_bitrate/latest measurement 0..2^32-1, any state/near_max/initialised flags, measurement present or None, gaps 0..5000 ms; avg_max_bitrate_kbps None or 1000.0 (var 0.4)", encoded=ENC + ["aiortc.rate:AimdRateControl.update"], stubs=STUBS + ["AimdRateControl._multiplicative_rate_increase (pow) -> arbitrary int in 1000..2^32-1; _additive_rate_increase -> arbitrary int in 0..2^40 (its contract, result >= 0 and no exception, is the aimd-near-max harness); _update_max_throughput_estimate (float EWMA) -> sets avg to 1000.0; round(0.85*T): any integer within 1/2 + half-ulp of the exact rational product (over-approximates IEEE rounding)"], outside=["float state avg/var_max_bitrate_kbps other than None/1000.0 (sqrt of symbolic floats)"], twin="updated", opts={"lia": True}),
     "orchestration": Harness("orchestration", h_orchestration, lambda tier: [{"npk": n, "W": 2} for n in ((2,) if tier == "quick" else (2, 3))], style="BMC", bounds="2 (quick) / 2..3 packets with symbolic SSRCs (overlaps solver-decided), arrival gaps 0..2W ms, sizes 0..1500, measurement window W = 2 ms (RateCounter is parametric in W)", encoded=ENC, stubs=STUBS, twin="added", opts={"samples": 1}),
+    "two-estimators": Harness("two-estimators", h_two_estimators, lambda tier: [{}], style="REL (two instances)", bounds="two RemoteBitrateEstimator instances in one process, one packet each with symbolic SSRC / send time / arrival time", encoded=["aiortc.rate:RemoteBitrateEstimator.__init__", "aiortc.rate:RemoteBitrateEstimator.add"], stubs=STUBS, twin="second-estimate", opts={"samples": 1}),
+    "receiver-feed": Harness("receiver-feed", h_receiver_feed, lambda tier: [{"has_ast": True}, {"has_ast": False}], style="STEP", bounds="one VP8 packet through the real RTCRtpReceiver._handle_rtp_packet: abs-send-time any 24-bit value or absent, padding 0..255, arrival time < 2^40, sequence number symbolic; estimator replaced by a recorder returning an estimate or None", encoded=["aiortc.rtcrtpreceiver:RTCRtpReceiver._handle_rtp_packet"], stubs=["RemoteBitrateEstimator -> recorder", "RTCP sending recorded", "decoder thread replaced by a queue"], twin="receiver-fed", opts={"samples": 1}),
     "many-ssrcs": Harness("many-ssrcs", h_many_ssrcs, lambda tier: [{"n": n} for n in (2, 255, 256)], style="NC (targeted, concrete count)", bounds="2, 255 and 256 distinct SSRCs", encoded=ENC, stubs=STUBS, twin="many-added"),
 }
